@@ -282,6 +282,108 @@ theorem wf_computeTrace (final : Nat → Int) (rf g : Nat) (fl : List Nat) (bs :
     simp only [computeTrace, List.flatMap_cons] at ih ⊢
     rw [wf_append, wf_batchTrace, ih]; rfl
 
+/-! ### the stronger acceptance: a mark only after its result is durable -/
+
+theorem strong_append (final : Nat → Int) : ∀ (t1 t2 : List Ev) (w : World),
+    wfStrongFrom final w (t1 ++ t2) = (wfStrongFrom final w t1 && wfStrongFrom final (run w t1) t2) := by
+  intro t1
+  induction t1 with
+  | nil => intro t2 w; simp [wfStrongFrom, run]
+  | cons e t ih =>
+    intro t2 w
+    cases e with
+    | mark k => simp only [List.cons_append, wfStrongFrom, run, List.foldl_cons, ih, Bool.and_assoc]
+    | writeRes k v => simp only [List.cons_append, wfStrongFrom, run, List.foldl_cons, ih, Bool.and_assoc]
+    | flush f => simp only [List.cons_append, wfStrongFrom, run, List.foldl_cons, ih]
+    | other => simp only [List.cons_append, wfStrongFrom, run, List.foldl_cons, ih]
+
+theorem strong_writes (final : Nat → Int) (rf g : Nat) (b : List Nat) (w : World) :
+    wfStrongFrom final w (b.map (fun p => Ev.writeRes ⟨rf, g, p⟩ (final p))) = true := by
+  induction b generalizing w with
+  | nil => rfl
+  | cons q b ih => simp [wfStrongFrom, ih]
+
+theorem strong_flushes (final : Nat → Int) (fls : List Nat) (w : World) :
+    wfStrongFrom final w (fls.map Ev.flush) = true := by
+  induction fls generalizing w with
+  | nil => rfl
+  | cons f fls ih => simp only [List.map_cons, wfStrongFrom]; exact ih _
+
+/-- once the file of `k` has been flushed, the durable copy of `k` equals the volatile one, and further
+    flushes (of any file) keep it so -/
+theorem flushes_dur_lookup (k : Key) : ∀ (fls : List Nat) (w : World),
+    (k.file ∈ fls ∨ w.dur.lookup k = w.vol.lookup k) →
+    (run w (fls.map Ev.flush)).dur.lookup k = w.vol.lookup k
+  | [], w, h => by
+    rcases h with h | h
+    · cases h
+    · simpa [run] using h
+  | f :: fls, w, h => by
+    simp only [List.map_cons, run, List.foldl_cons]
+    have hvol : (step w (Ev.flush f)).vol = w.vol := rfl
+    have := flushes_dur_lookup k fls (step w (Ev.flush f)) (by
+      by_cases hf : k.file = f
+      · right
+        show (flushFile f w).lookup k = w.vol.lookup k
+        rw [lookup_flush]; simp [hf]
+      · rcases h with h | h
+        · left
+          rcases List.mem_cons.mp h with h | h
+          · exact absurd h hf
+          · exact h
+        · right
+          show (flushFile f w).lookup k = w.vol.lookup k
+          rw [lookup_flush]; simp [hf, h])
+    simp only [run] at this
+    rw [this, hvol]
+
+theorem strong_marks (final : Nat → Int) (rf g : Nat) (b : List Nat) (w : World)
+    (hv : ∀ p ∈ b, w.vol.lookup ⟨rf, g, p⟩ = some (final p))
+    (hd : ∀ p ∈ b, w.dur.lookup ⟨rf, g, p⟩ = some (final p)) :
+    wfStrongFrom final w (b.map (fun p => Ev.mark ⟨rf, g, p⟩)) = true := by
+  induction b generalizing w with
+  | nil => rfl
+  | cons q b ih =>
+    simp only [List.map_cons, wfStrongFrom, Bool.and_eq_true, beq_iff_eq]
+    refine ⟨⟨hd q List.mem_cons_self, hv q List.mem_cons_self⟩, ih _ ?_ ?_⟩
+    · intro p hp
+      have : (step w (Ev.mark ⟨rf, g, q⟩)).vol.lookup ⟨rf, g, p⟩ = w.vol.lookup ⟨rf, g, p⟩ := rfl
+      rw [this]; exact hv p (List.mem_cons_of_mem _ hp)
+    · intro p hp
+      have : (step w (Ev.mark ⟨rf, g, q⟩)).dur.lookup ⟨rf, g, p⟩ = w.dur.lookup ⟨rf, g, p⟩ := rfl
+      rw [this]; exact hd p (List.mem_cons_of_mem _ hp)
+
+theorem strong_batchTrace (final : Nat → Int) (rf g : Nat) (fl : List Nat) (hrf : rf ∈ fl) (b : List Nat) (w : World) :
+    wfStrongFrom final w (batchTrace final rf g fl b) = true := by
+  unfold batchTrace
+  rw [strong_append, strong_append, strong_writes]
+  simp only [Bool.true_and, Bool.and_eq_true]
+  refine ⟨by simp only [wfStrongFrom]; exact strong_flushes _ _ _, ?_⟩
+  have hw := run_writes_vol final rf g b w
+  have hvol : (run (run w (b.map (fun p => Ev.writeRes ⟨rf, g, p⟩ (final p)))) (Ev.other :: fl.map Ev.flush)).vol
+      = (run w (b.map (fun p => Ev.writeRes ⟨rf, g, p⟩ (final p)))).vol := by
+    simp only [run, List.foldl_cons, step]
+    exact run_flushes_vol fl _
+  apply strong_marks
+  · intro p hp
+    rw [run_append, hvol]
+    exact hw.2.2.1 p hp
+  · intro p hp
+    rw [run_append]
+    have : run (run w (b.map (fun p => Ev.writeRes ⟨rf, g, p⟩ (final p)))) (Ev.other :: fl.map Ev.flush) =
+        run (run w (b.map (fun p => Ev.writeRes ⟨rf, g, p⟩ (final p)))) (fl.map Ev.flush) := by
+      simp only [run, List.foldl_cons, step]
+    rw [this, flushes_dur_lookup ⟨rf, g, p⟩ fl _ (Or.inl hrf)]
+    exact hw.2.2.1 p hp
+
+theorem strong_computeTrace (final : Nat → Int) (rf g : Nat) (fl : List Nat) (hrf : rf ∈ fl) (bs : List (List Nat))
+    (w : World) : wfStrongFrom final w (computeTrace final rf g fl bs) = true := by
+  induction bs generalizing w with
+  | nil => rfl
+  | cons b bs ih =>
+    simp only [computeTrace, List.flatMap_cons] at ih ⊢
+    rw [strong_append, strong_batchTrace final rf g fl hrf, ih]; rfl
+
 /-- with a separate results file that is never flushed, nothing of it ever becomes durable -/
 theorem dur_untouched (final : Nat → Int) (rf g : Nat) (fl : List Nat) (hne : rf ∉ fl) (bs : List (List Nat)) (w : World)
     (h0 : ∀ k ∈ w.dur.marked, k.file ≠ rf) (hv : ∀ k ∈ w.vol.marked, k.file = rf) :
